@@ -559,6 +559,7 @@ impl Gen {
                 s.push_str(self.piece(r));
                 (s, "multiline-string")
             }
+            7 if r.chance(2, 3) => (oc_input(r), "output-comment-eval"),
             7 => {
                 let mut s = String::new();
                 let nl = *r.pick(&["\n", "\r\n", "\n", "\r"]);
@@ -679,6 +680,59 @@ fn cause(key: &str, detail: &str, _shrunk: &str) -> &'static str {
     }
 }
 
+/// evaluated `##` output comments: values that print on one or several lines, captured at the
+/// start or at the end of a line, at indent levels 0-3 (module, multi-line function, nested).
+/// format_str evaluates output comments (format.rs:421), and an evaluated output comment at the
+/// start of a line is pushed as ONE fragment that contains newlines and starts at the indent column.
+const OC_VALUES: &[&str] = &["5", "[1 2 3]", "°△2_3", "°△2_2_2", "{1 [2 3] \"ab\"}", "{°△2_2 5}", "[1_2 3_4]", "\"hi\"", "[\"ab\" \"cd\"]", "°△3_1", "{°△2_2 °△2_3}", "η"];
+
+fn oc_block(r: &mut Rng, indent: usize, pretty: bool) -> String {
+    // the lines of one block of values and output comments, to be placed at the given indent
+    let pad = if pretty { " ".repeat(2 * indent) } else { " ".repeat(r.below(3)) };
+    let mut s = String::new();
+    for _ in 0..1 + r.below(3) {
+        let v = *r.pick(OC_VALUES);
+        match r.below(4) {
+            0 => s.push_str(&format!("{pad}{v} ##\n")),
+            1 => {
+                let w = *r.pick(OC_VALUES);
+                s.push_str(&format!("{pad}{v} {w}\n{pad}###\n"));
+            }
+            _ => s.push_str(&format!("{pad}{v}\n{pad}##\n")),
+        }
+        if r.chance(1, 3) {
+            s.push_str(&format!("{pad}◌ # c\n"));
+        }
+    }
+    s
+}
+
+fn oc_input(r: &mut Rng) -> String {
+    let pretty = r.chance(2, 3);
+    let p = |n: usize| if pretty { " ".repeat(2 * n) } else { String::new() };
+    match r.below(6) {
+        0 => oc_block(r, 0, pretty),
+        1 => format!("┌─╴M\n{}{}F ← +1\n└─╴\nM~F 1\n", oc_block(r, 1, pretty), p(1)),
+        2 => format!("F ← (\n{}{}◌\n)\nF\n", oc_block(r, 1, pretty), p(1)),
+        3 => format!("┌─╴M\n{}F ← (\n{}{}◌\n{})\n{}F\n└─╴\n", p(1), oc_block(r, 2, pretty), p(2), p(1), p(1)),
+        4 => format!("┌─╴A\n{}┌─╴B\n{}F ← (\n{}{}◌\n{})\n{}F\n{}└─╴\n└─╴\n", p(1), p(2), oc_block(r, 3, pretty), p(3), p(2), p(2), p(1)),
+        _ => format!("┌─╴A\n{}┌─╴B\n{}{}└─╴\n{}└─╴\n{}", p(1), oc_block(r, 2, pretty), p(1), oc_block(r, 1, pretty), oc_block(r, 0, pretty)),
+    }
+}
+
+/// fixed corpus of evaluated output comments (runs first, after the regression inputs)
+const OC_CORPUS: &[&str] = &[
+    "°△2_3\n##\n+1 2\n",
+    "┌─╴M\n  5\n  ##\n  F ← +1\n└─╴\nM~F 1\n",
+    "┌─╴M\n  °△2_3\n  ##\n  F ← +1\n└─╴\nM~F 1\n",
+    "F ← (\n  °△2_3\n  ##\n  ◌\n)\nF\n",
+    "┌─╴M\n  F ← (\n    °△2_2_2\n    ##\n    ◌\n  )\n  F\n└─╴\n",
+    "┌─╴A\n┌─╴B\nF ← (\n{°△2_2 5}\n##\n◌\n)\nF\n└─╴\n└─╴\n",
+    "┌─╴M\n  °△2_3 ##\n  1 °△2_2\n  ###\n└─╴\n",
+    "┌─╴M\n  [1_2 3_4]\n  ##\n  {°△2_2 °△2_3}\n  ##\n  5 ##\n└─╴\n",
+    "F ← (\n  \"hi\" # c\n  °△3_1\n  ##\n  ◌◌\n)\nF\n",
+];
+
 /// former failing inputs of repaired defect classes: replayed first by `tie` and `search`
 /// (class, input)
 const REGRESSION: &[(&str, &str)] = &[
@@ -793,8 +847,14 @@ fn main() {
             let g = Gen::new();
             let mut k = 0;
             while k < n {
-                let (src, cat) = if k < REGRESSION.len() { (REGRESSION[k].1.to_string(), "regression") } else { g.input(&mut r, true) };
-                if segments(&src).len() > 90 {
+                let (src, cat) = if k < REGRESSION.len() {
+                    (REGRESSION[k].1.to_string(), "regression")
+                } else if k < REGRESSION.len() + OC_CORPUS.len() {
+                    (OC_CORPUS[k - REGRESSION.len()].to_string(), "output-comment-eval")
+                } else {
+                    g.input(&mut r, true)
+                };
+                if segments(&src).len() > 90 && cat != "output-comment-eval" || segments(&src).len() > 160 {
                     continue;
                 }
                 begin(&src);
@@ -806,7 +866,28 @@ fn main() {
                     }
                     write!(line, "[{},{},{}]", jstr(rc.kind), loc_json(&rc.s), loc_json(&rc.e)).unwrap();
                 }
-                line.push_str("],\"viol\":[");
+                line.push_str("],\"out\":");
+                match &c.fmt_out {
+                    Some((out, ps)) if out.chars().count() <= 1500 => {
+                        line.push('[');
+                        for (j, ch) in out.chars().enumerate() {
+                            if j > 0 {
+                                line.push(',');
+                            }
+                            write!(line, "[{},{}]", ch.len_utf8(), class_of(ch)).unwrap();
+                        }
+                        line.push_str("],\"gout\":[");
+                        for (j, (a, b)) in ps.iter().enumerate() {
+                            if j > 0 {
+                                line.push(',');
+                            }
+                            write!(line, "[{},{}]", loc_json(a), loc_json(b)).unwrap();
+                        }
+                        line.push(']');
+                    }
+                    _ => line.push_str("null,\"gout\":[]"),
+                }
+                line.push_str(",\"viol\":[");
                 let mut seen: Vec<String> = Vec::new();
                 for v in monitor(&src, &c) {
                     if seen.contains(&v.key) {
@@ -896,6 +977,9 @@ fn main() {
             for (cz, src) in REGRESSION {
                 run(src, "regression", true, Some((cz, src)), false);
             }
+            for src in OC_CORPUS {
+                run(src, "output-comment-eval", true, None, true);
+            }
             for (cz, label, src) in big_inputs() {
                 run(&src, "big", false, Some((cz, label)), false);
                 let accepted = catch(|| uiua::lex(&src, (), &mut Inputs::default()).0.len()).map(|n| n > 0).unwrap_or(false);
@@ -943,7 +1027,7 @@ fn main() {
             for k in 0..n {
                 let (src, cat) = g.input(&mut r, false);
                 // the expensive consumers (compiler, language server, formatter) on every 4th input
-                run(&src, cat, k % 4 == 0, None, true);
+                run(&src, cat, k % 4 == 0 || cat == "output-comment-eval", None, true);
             }
             drop(run);
             let kinds: Vec<String> = by_kind.iter().map(|(k, v)| format!("{}:{}", jstr(k), v)).collect();
